@@ -161,10 +161,10 @@ pub fn run(cfg: &Cfg) -> i32 {
         cfg,
         "exploration",
         "case = (compiler-accepted program, host-call history): programs are (a) lists of int expressions over extreme operands whose 32-bit wrapped results are computed by the monitor, (b) generated programs after one source-level fault-prone mutation (number -> 0/extreme, operator -> / or %, deleted divert / tunnel return / function return, string where a number is expected, divert through an int variable, SEED_RANDOM(i32::MAX) + RANDOM over the full range, duplicated line), (c) corpus stories; histories include continues after errors, continue_maximally, save/load, flow switches, path jumps to arbitrary knots (also knots that expect arguments), host assignments; with and without an error handler; externals bound or left to their fallbacks. Monitored: no panic (caught and attributed to a repository function), no process death (journal), (a) printed values equal the wrapped values, every runtime error reaches the host (Err result or handler callback, then can_continue is false), and after a reported error reset_state + replay equals a fresh story. A per-case transcript hash is written for the debug-vs-release comparison done by the driver. Non-trivial = the history executed >= 3 calls; distinct by (program, history).",
-        cfg.pick(2_500, 50_000),
+        cfg.pick(2_500, 200_000),
     );
     rep.assumptions.push(format!("this worker ran the {profile} profile; the driver compares the per-case transcript hashes of the debug and release workers"));
-    let nprog = cfg.get_u64("programs", cfg.pick(2_000, 40_000));
+    let nprog = cfg.get_u64("programs", cfg.pick(2_000, 160_000));
     let mut hashes: Vec<(String, u64)> = Vec::new();
     let mut gc = GenCfg::rich();
     gc.externals = true;
